@@ -86,7 +86,8 @@ def theorem_names(module):
         m = re.match(r"^end\s+(\S+)", line)
         if m and ns and ns[-1].split(".")[-1] == m.group(1).split(".")[-1]:
             ns.pop(); continue
-        m = re.match(r"^(?:private\s+|protected\s+)?theorem\s+([^\s:({\[]+)", line)
+        # private helper lemmas are skipped: whatever they depend on shows up in the public theorems' axiom lists
+        m = re.match(r"^(?:protected\s+)?theorem\s+([^\s:({\[]+)", line)
         if m:
             names.append(".".join(ns + [m.group(1)]))
     return names
